@@ -3,12 +3,12 @@
 EXTENDS MCCore
 
 W0(nm, np, G, Wd) == [n |-> nm, ln |-> nm, np |-> np, G |-> G, W |-> Wd, sing |-> FALSE, resp |-> TRUE, auto |-> TRUE, prio |-> 0,
-                      ssig |-> 15, sch |-> FALSE, hup |-> FALSE, hooks |-> <<>>, retry |-> 2]
+                      ssig |-> 15, sch |-> FALSE, hup |-> FALSE, hooks |-> <<>>, retry |-> 2, ver |-> 1]
 Rq(cmd, nm, waiting) == [cmd |-> cmd, name |-> nm, lname |-> nm, hasname |-> nm # "", mid |-> "", waiting |-> waiting,
             cast |-> FALSE, pid |-> -1, signum |-> -1, children |-> FALSE, recursive |-> FALSE, childpid |-> -1,
             nb |-> 1, G |-> -1, nostop |-> FALSE, graceful |-> TRUE, sequential |-> FALSE, raw |-> FALSE,
             start |-> FALSE, addnp |-> 1, addG |-> 1, addW |-> 0, addsing |-> FALSE, nopts |-> 1, pattern |-> FALSE,
-            opts |-> <<>>, matches |-> <<>>]
+            opts |-> <<>>, matches |-> <<>>, file |-> <<>>, plan |-> [chg |-> <<>>, del |-> <<>>, add |-> <<>>]]
 D(cd, wg, ws) == [cd |-> cd, wg |-> wg, ws |-> ws, obeyset |-> {TRUE}]
 Stubborn(c) == [c EXCEPT !.obeyset = {FALSE}]
 Mixed(c) == [c EXCEPT !.obeyset = {TRUE, FALSE}]
